@@ -56,9 +56,40 @@ pub trait HalScratchDefaults<BE: Backend>: Backend {
 
 impl<BE: Backend> HalScratchDefaults<BE> for BE {}
 
+/// Verification hook (off unless built with `--cfg poulpy_verif`): a thread-local log of every
+/// scratch take `(address of the arena slice, its length, bytes requested)`, recorded before the
+/// take can fail. Nothing is recorded unless a test calls [`verif_scratch_trace::start`].
+#[cfg(poulpy_verif)]
+pub mod verif_scratch_trace {
+    use std::cell::RefCell;
+
+    thread_local! {
+        static TAKES: RefCell<Option<Vec<(usize, usize, usize)>>> = const { RefCell::new(None) };
+    }
+
+    pub fn start() {
+        TAKES.with(|t| *t.borrow_mut() = Some(Vec::new()));
+    }
+
+    pub fn stop() -> Vec<(usize, usize, usize)> {
+        TAKES.with(|t| t.borrow_mut().take().unwrap_or_default())
+    }
+
+    pub(super) fn record(ptr: usize, len: usize, take: usize) {
+        TAKES.with(|t| {
+            if let Some(v) = t.borrow_mut().as_mut() {
+                v.push((ptr, len, take))
+            }
+        });
+    }
+}
+
 fn take_slice_aligned(data: &mut [u8], take_len: usize) -> (&mut [u8], &mut [u8]) {
     let ptr: *mut u8 = data.as_mut_ptr();
     let self_len: usize = data.len();
+
+    #[cfg(poulpy_verif)]
+    verif_scratch_trace::record(ptr as usize, self_len, take_len);
 
     let aligned_offset: usize = ptr.align_offset(DEFAULTALIGN);
     let aligned_len: usize = self_len.saturating_sub(aligned_offset);
